@@ -264,7 +264,6 @@ func genC09(g *Gen) error {
 		{"src_int_merge", "engine/immutable/pre_aggregation.go", "IntegerPreAgg.merge"},
 		{"src_float_merge", "engine/immutable/pre_aggregation.go", "FloatPreAgg.merge"},
 		{"src_isPreAggRead", "engine/immutable/location.go", "Location.isPreAggRead"},
-		{"src_firstTieTakesBase", "engine/immutable/reader.go", "firstTieTakesBase"},
 		{"src_compareMin", "engine/immutable/reader.go", "compareMin"},
 		{"src_minBool", "engine/immutable/reader.go", "minBool"},
 		{"src_maxBool", "engine/immutable/reader.go", "maxBool"},
